@@ -20,8 +20,28 @@ def make_files(ctx, sch, rng, n):
     for cid, script, h in cases:
         outs = [l for l in impl[cid] if l.startswith("out ")]
         data = bytes.fromhex(outs[-1][4:]) if outs and outs[-1][4:] != "-" else b""
-        if data: files.append({"data": data, "h": h})
+        if not data: continue
+        if len(files) % 3 == 1:
+            # a block that uses the file's first parameter set may leave the block-parameters index out of its preamble (RFC 8618: optional,
+            # default 0): the exporter never does, other writers do
+            try: data = strip_default_index(data)
+            except Exception: pass
+        files.append({"data": data, "h": h})
     return files
+
+def strip_default_index(data):
+    t = refcbor.parse_all(data)
+    top = list(t[1]); ba = top[2]
+    blocks = []
+    for b in ba[1]:
+        ents = []
+        for k, v in b[1]:
+            if k[0] == "u" and k[1] == 0 and v[0] == "m":
+                v = ("m", [(kk, vv) for kk, vv in v[1] if not (kk[0] == "u" and kk[1] == 1 and vv[0] == "u" and vv[1] == 0)], v[2], v[3])
+            ents.append((k, v))
+        blocks.append(("m", ents, b[2], b[3]))
+    top[2] = ("a", blocks, ba[2], ba[3])
+    return refcbor.encode(("a", top, t[2], t[3]))
 
 def prefix_blocks(sch, data):
     """independent reading of a possibly damaged file: (preamble, [blocks readable before the first error]) or None"""
